@@ -86,7 +86,14 @@ func runRT(c rtCase, r *pb.Rec) error {
 	if e2 := cd.formatS(string(c.S)); !bytes.Equal(enc, e2) {
 		return fmt.Errorf("%s Format differs for string and []byte: %q vs %q", cd.name, enc, e2)
 	}
-	if e3 := cd.formatStr(c.S); e3 != string(enc) {
+	e3 := cd.formatStr(c.S)
+	e3keep, encKeep := strings.Clone(e3), append([]byte(nil), enc...)
+	_ = cd.formatStr(append([]byte("\x01other"), c.S...))
+	_ = cd.format(append([]byte("\x02other"), c.S...))
+	if e3 != e3keep || !bytes.Equal(enc, encKeep) {
+		return fmt.Errorf("%s Format(%q): a result handed out earlier changed after a later call", cd.name, c.S)
+	}
+	if e3 != string(enc) {
 		return fmt.Errorf("%s FormatToString differs: %q vs %q", cd.name, e3, enc)
 	}
 	if !cd.shape.Match(enc) {
@@ -179,6 +186,17 @@ func checkTotal(cd codec, in []byte) error {
 	s := cd.parseStr(string(in))
 	if s != string(dst[:n]) {
 		return fmt.Errorf("%s Parse(dst,%q)=%q but ParseToString=%q", cd.name, in, dst[:n], s)
+	}
+	// a result handed out earlier must not change when the library is called again (no shared or pooled buffers)
+	keep := strings.Clone(s)
+	other := append([]byte("zz"), in...)
+	for i, j := 0, len(other)-1; i < j; i, j = i+1, j-1 {
+		other[i], other[j] = other[j], other[i]
+	}
+	_ = cd.parseStr(string(other))
+	_ = cd.parseStrB(other)
+	if s != keep {
+		return fmt.Errorf("%s ParseToString(%q): the returned string changed from %q to %q after a later call", cd.name, in, keep, s)
 	}
 	if s2 := cd.parseStrB(in); s2 != s {
 		return fmt.Errorf("%s ParseToString differs for string and []byte input %q: %q vs %q", cd.name, in, s, s2)
